@@ -26,15 +26,23 @@ logging.disable(logging.CRITICAL)
 
 EXTRA = {
     "assumptions": [
-        "Python's json module (dumps / loads) is in the trusted base: on NaN-free plain values the text trip is the "
-        "identity with exact leaf types (sampled every run: json.loads(json.dumps(j)) compared leaf by leaf)",
+        "GAP (declared): the text stage 'through json.dumps(allow_nan=False) and json.loads' is NOT in the theorem. "
+        "DESIGN §5 promised a Lean encode/decode pair over the JSON value type proved inverse; it was not built "
+        "(string escapes and float tokens of CPython's encoder would have to be modelled). json_roundtrip states "
+        "toTable (tableJson t) directly; Python's json module is trusted base: on NaN-free plain values the text trip "
+        "is the identity with exact leaf types — sampled every run (json.loads(json.dumps(j)) compared leaf by leaf "
+        "with exact types on every generated table), never proved",
         "pandas.to_datetime(str(Timestamp)) == Timestamp for microsecond timestamps (the codec law of the theorem's "
         "`DtCodec` hypothesis; sampled every run for each generated timestamp, years 1900-2200)",
-        "what `list(df[col])` yields per dtype (Python float / int / bool / str, pd.Timestamp / NaT) and which numpy "
-        "dtype a parsed column has are observed per case and sent to the model as typed values",
+        "what `list(df[col])` yields per dtype (Python float / int / bool / str, pd.Timestamp / NaT) is assumed by the "
+        "model (Json.valPVal) and checked on every table case: the elements are classified one by one by exact type "
+        "(table_obs: a numpy scalar would arrive as npscalar), compared with the assumed types, and sent through the "
+        "model unchanged (op json_of_table_obs, theorem tablePVal_obs links the two); which numpy dtype a parsed column "
+        "has is observed per case",
         "well-formed tables only (DESIGN §3 clauses 1-5 without the separator / marker conditions): unique "
         "non-blank trimmed column names, trimmed units matching the column kind, name not ending in '*', non-empty "
-        "set of blank-free destinations, integers below 2^53; the round trip is claimed for tables without missing "
+        "set of blank-free destinations, integers of magnitude below 2^53 (WF clause `isNumber`; 2^53+1 is the proved "
+        "and sampled counter-example); the round trip is claimed for tables without missing "
         "datetimes only (a null reaches _parse_datetime_column as None, which the strict fixer rejects)",
     ],
     "explanation": "Props/C08.lean: toJson never yields NaN (json_pure / no_nan for every input of "
@@ -126,6 +134,38 @@ def table_val(t):
         cols.append({"name": str(nm), "unit": t.units[idx], "values": vals})
     return {"name": t.name, "destinations": [str(d) for d in t.metadata.destinations],
             "transposed": bool(t.metadata.transposed), "columns": cols}
+
+
+def table_obs(t):
+    """real Table -> the elements of `list(table.df[col])` as *observed* (classified by exact Python type: a numpy
+    scalar arrives as npscalar, never coerced), for driver op json_of_table_obs"""
+    cols = []
+    for idx, nm in enumerate(t.df.columns):
+        cols.append({"name": str(nm), "unit": t.units[idx], "values": [classify(x) for x in list(t.df[nm])]})
+    return {"name": t.name, "destinations": [str(d) for d in t.metadata.destinations], "columns": cols}
+
+
+def assumed_element(v):
+    """the element type the model assumes for a dtype-typed value (`Json.valPVal`), in PVal wire form"""
+    if isinstance(v, dict) and "d" in v:
+        return {"dt": v["d"]}
+    return v
+
+
+def assumed_array(cv):
+    """the array type the model assumes for a parsed column (`Json.colPVal`), in PVal wire form"""
+    k, v = cv["k"], cv["v"]
+    if k == "text":
+        return {"nd": list(v)}
+    if k == "onoff":
+        return {"nd": list(v)}
+    if k == "num":
+        return {"f64": list(v)}
+    if k == "dt":
+        return {"nd": [{"dt": t} for t in v]}
+    if k == "raw":
+        return {"list": []}
+    return {"k": "unmodelled"}
 
 
 def strings_of(j, acc):
@@ -354,7 +394,7 @@ def gen_spec(rng, allow_nat=True):
                     vals.append(v)
         elif kind == "int":
             unit = rng.choice(NUM_UNITS).strip(SPACES)
-            vals = [rng.choice([0, 1, -1, 7, 10 ** 6, -2 ** 40, 2 ** 53 - 1, -(2 ** 53) + 1, 10 ** 15, 10 ** 16]) for _ in range(n_row)]
+            vals = [rng.choice([0, 1, -1, 7, 10 ** 6, -2 ** 40, 2 ** 53 - 1, -(2 ** 53) + 1, 10 ** 15, 9 * 10 ** 15]) for _ in range(n_row)]
         else:
             unit, vals = rng.choice(NUM_UNITS).strip(SPACES), []
             for _ in range(n_row):
@@ -529,6 +569,39 @@ def run(tier, seed, model_ok, translator, search=False):
         case = {"seed": seed, "stream": "b", "index": i, "table": spec_case(spec)}
         run_table_case(out, rng, spec, case, model)
 
+    # (b') negative WF case: an int64 of magnitude >= 2^53 that is not a float64 does not come back as the same number
+    from pdtable.io.json import table_to_json_data as _t2j, json_data_to_table as _j2t
+    for big in (2 ** 53 + 1, -(2 ** 53) - 1, 2 ** 60 + 1):
+        spec = {"name": "big", "dests": ["a"], "transposed": False, "cols": [("n", "-", "int", [big, 1])]}
+        t = build_table(rng, spec)
+        case = {"seed": seed, "stream": "b-neg", "table": spec_case(spec)}
+        try:
+            with warnings.catch_warnings():
+                warnings.simplefilter("ignore")
+                j = _t2j(t)
+                t2 = _j2t(json.loads(json.dumps(j, allow_nan=False)))
+            same = t2.equals(t)
+            back = t2.df["n"].tolist()[0]
+        except Exception as e:  # noqa: BLE001
+            same, back = None, type(e).__name__
+        add_case(out, case, case["table"], False)
+        out.count("negative (|i| >= 2^53, not a float64): " + ("comes back as a different number" if same is False
+                  else "unexpectedly round-trips" if same else "raises " + str(back)))
+        if type(j["columns"]["n"]["values"][0]) is not int or j["columns"]["n"]["values"][0] != big:
+            out.fail("table_to_json_data does not carry a large integer exactly", case, j["columns"]["n"]["values"][0], big, key="bigint")
+        model({"op": "json_of_table", "table": table_val(t)}, case, {"ok": jv(j)}, "table_to_json_data (large int)")
+
+    spec = {"name": "nul", "dests": ["a"], "transposed": False, "cols": [("s", "text", "text", ["a\x00", "b"])]}
+    t = build_table(rng, spec)
+    try:
+        with warnings.catch_warnings():
+            warnings.simplefilter("ignore")
+            back = _j2t(json.loads(json.dumps(_t2j(t)))).df["s"].tolist()[0]
+    except Exception as e:  # noqa: BLE001
+        back = type(e).__name__
+    out.evaluations += 1
+    out.count("negative (text ending in NUL): " + ("comes back without the NUL" if back == "a" else "comes back as " + repr(back)))
+
     # (c) reader-produced JsonData
     n_c = 7000 if thorough else 600
     for i in range(n_c):
@@ -614,7 +687,15 @@ def run_table_case(out, rng, spec, case, model):
         out.fail("table_to_json_data raises on a well-formed table", case, type(e).__name__ + ": " + str(e)[:100], "JsonData",
                  key="to_json_exc:" + type(e).__name__)
         return
-    model({"op": "json_of_table", "table": table_val(t)}, case, {"ok": jv(j)}, "table_to_json_data")
+    tv, tobs = table_val(t), table_obs(t)
+    model({"op": "json_of_table", "table": tv}, case, {"ok": jv(j)}, "table_to_json_data")
+    model({"op": "json_of_table_obs", "table": tobs}, case, {"ok": jv(j)}, "table_to_json_data (observed element types)")
+    for cv, co in zip(tv["columns"], tobs["columns"]):
+        want = [assumed_element(v) for v in cv["values"]]
+        if want != co["values"]:
+            out.mismatch("list(df[col]) yields other element types than the model assumes (Json.valPVal)",
+                         dict(case, column=cv["name"]), co["values"][:6], want[:6])
+            break
     if not impure_leaves(j):
         try:
             json.dumps(j, allow_nan=False)
@@ -703,6 +784,24 @@ def run_grid_case(out, grid, info, case, model, via_blocks):
     out.count("c:orientation:" + ("transposed" if info["transposed"] else "rowwise"))
     if not via_blocks:
         model(dict(rc.model_op("json_of_precursor", grid, "strict")), case, {"ok": jv(j)}, "make_table_json_data")
+        # the arrays of the real precursor as observed (dtype float64 or not, exact type of every tolist() element)
+        try:
+            from pdtable.io.parsers.blocks import make_table_json_precursor
+            with warnings.catch_warnings():
+                warnings.simplefilter("ignore")
+                pre, _tr = make_table_json_precursor([list(r) for r in grid], origin="x", fixer=rc.make_fixer("strict"))
+            obs = [classify(v) for v in pre["columns"].values()]
+            model({"op": "json_of_precursor_obs", "precursor": {
+                "name": pre["name"], "destinations": list(pre["destinations"].keys()), "names": list(pre["columns"].keys()),
+                "units": list(pre["units"]), "columns": obs}}, case, {"ok": jv(j)}, "make_table_json_data (observed arrays)")
+            for nm, v, o in zip(pre["columns"].keys(), pre["columns"].values(), obs):
+                want = assumed_array(rc.canon_values(v))
+                if want != o:
+                    out.mismatch("a parsed column is held as another array type than the model assumes (Json.colPVal)",
+                                 dict(case, column=nm), str(o)[:200], str(want)[:200])
+                    break
+        except Exception as e:  # noqa: BLE001
+            out.mismatch("make_table_json_precursor raises where make_table_json_data did not", case, type(e).__name__, None)
     try:
         cv = col_values(t)
     except Exception as e:  # noqa: BLE001
